@@ -11,7 +11,7 @@ import (
 // includeIfExists is include-or-false.
 
 func c09Mk(log *[]string) rj.Inputs {
-	return rj.Inputs{Vars: map[string]interface{}{"cT": true, "cF": false, "rS": []string{"e1", "e2"}, "nameVar": "", "dir": "/sub/"}, Data: "D"}
+	return rj.Inputs{Vars: map[string]interface{}{"cT": true, "cF": false, "rS": []string{"e1", "e2"}, "nameVar": "", "dir": "/sub/", "nilv": nil}, Data: "D"}
 }
 
 const c09NCallee = 26
@@ -166,8 +166,11 @@ func c09Build(kind, site1, site2, ctx, nameForm, ref, callee int) *rj.Program {
 	}
 	calleeFiles, _ := c09Callee(callee, "/sub/c.jet")
 	var ctxX rj.Expr
-	if ctx == 1 {
+	switch ctx {
+	case 1:
 		ctxX = rj.S("CTX")
+	case 2:
+		ctxX = rj.V("nilv") // a context that is given but evaluates to nil: the callee's '.' is nil, not the caller's
 	}
 	var call []rj.Stmt
 	switch kind {
@@ -201,10 +204,13 @@ func c09Build(kind, site1, site2, ctx, nameForm, ref, callee int) *rj.Program {
 var c09Space = registerSpace(&e1Space{
 	Prop: "C09", Name: "calls",
 	N: func(th bool) int64 {
-		return 4 * c09NSites * c09NSites * 2 * c09NNames * 3 * c09NCallee
+		return 4 * c09NSites * c09NSites * 3 * c09NNames * 3 * c09NCallee
 	},
 	Gen: func(i int64, th bool) *rj.Program {
-		ix := core.Radix(i, 4, c09NSites, c09NSites, 2, c09NNames, 3, c09NCallee)
+		ix := core.Radix(i, 4, c09NSites, c09NSites, 3, c09NNames, 3, c09NCallee)
+		if ix[3] == 2 && (ix[4] != 0 || ix[5] != 0) {
+			return nil // the nil context only with the absolute name from the root referrer
+		}
 		return c09Build(ix[0], ix[1], ix[2], ix[3], ix[4], ix[5], ix[6])
 	},
 })
